@@ -108,6 +108,7 @@ void ApiRun::op_cif_destroy(const Op &o) {
     if (c.iter >= 0) { HIter &it = iters[(size_t) c.iter]; int rc = CALLN("cif_pktitr_abort", cif_pktitr_abort(it.it)); it.it = NULL; loops[(size_t) it.loop_slot].locked = false; c.model = it.snapshot; c.iter = -1; expect_rc("cif_pktitr_abort", rc, {CIF_OK}); }
     for (size_t k = 0; k < loops.size(); ++k) if (loops[k].h && loops[k].cif == ci) free_loop_slot((int) k);
     for (size_t k = 0; k < conts.size(); ++k) if (conts[k].h && conts[k].cif == ci) { cif_container_free(conts[k].h); conts[k].h = NULL; }
+    free_zombies(ci);
     int rc = CALLN("cif_destroy", cif_destroy(c.cif));
     c.cif = NULL; c.model = MCif();
     expect_rc("cif_destroy", rc, {CIF_OK});
@@ -136,6 +137,7 @@ void ApiRun::op_block_create(const Op &o) {
     MCont b; b.code_orig = code; b.code_norm = norm; b.uid = new_uid();
     c.model.blocks.push_back(b);
     if (want) { if (!h) violate("result", "cif_create_block:null", "no handle recorded on success"); add_cont(h, ci, b.uid); }
+    probe_zombies(ci, "after a block was created");
     after_mutation(ci, false);
 }
 void ApiRun::op_block_get(const Op &o) {
@@ -201,6 +203,7 @@ void ApiRun::op_frame_create(const Op &o) {
     MCont f; f.code_orig = code; f.code_norm = norm; f.uid = new_uid();
     p = mcont(hs); p->frames.push_back(f);
     if (want) { if (!h) violate("result", "create_frame:null", "no handle recorded on success"); add_cont(h, ci, f.uid); }
+    probe_zombies(ci, "after a save frame was created");
     after_mutation(ci, false);
 }
 void ApiRun::op_frame_get(const Op &o) {
